@@ -28,7 +28,8 @@ T == ("t1"  :> Tx(<<In(<<"g1", 0>>, "A")>>, <<Out(1, "qi:C"), Out(1, "qi:D")>>, 
      ("t13" :> Tx(<<In(<<"g2", 0>>, "A")>>, <<Out(1, "quai:C")>>, "ok", "ours")) @@                      \* Quai address without conversion data
      ("t14" :> Tx(<<In(<<"g2", 0>>, "A")>>, <<Out(1, "zoneB:C")>>, "ok", "ours")) @@                     \* output to another zone (ETX)
      ("t15" :> Tx(<<In(<<"g2", 0>>, "A"), In(<<"g3", 0>>, "B")>>, <<Out(2, "qi:C"), Out(0, "qi:D")>>, "ok", "ours")) @@ \* two owners (MuSig2)
-     ("t16" :> Tx(<<In(<<"g2", 0>>, "A"), In(<<"g4", 0>>, "A")>>, <<Out(2, "qi:C"), Out(2, "qi:D")>>, "ok", "ours"))    \* second input still locked
+     ("t16" :> Tx(<<In(<<"g2", 0>>, "A"), In(<<"g4", 0>>, "A")>>, <<Out(2, "qi:C"), Out(2, "qi:D")>>, "ok", "ours")) @@ \* second input still locked
+     ("t17" :> Tx(<<In(<<"g3", 0>>, "B"), In(<<"g2", 0>>, "B")>>, <<Out(2, "qi:C")>>, "ok", "ours"))                     \* own output first, then a FOREIGN output under the same (own) key; aggregate of (B, B) is valid
 
 \* the constants above, as JSON for the driver (so that the specification stays the single source)
 GKey(o) == o[1] \o ":" \o ToString(o[2])
